@@ -28,6 +28,11 @@ type kindT struct {
 var kindsT = []kindT{
 	{"string", reflect.TypeOf(""), []interface{}{"", "x", "y"}, []string{"", "x", "y"}},
 	{"int32", reflect.TypeOf(int32(0)), []interface{}{int32(0), int32(1), int32(2)}, []string{"0", "1", "2"}},
+	// further comparable kinds (2..3 members): emptiness of a fixed-size array is "all elements zero", not "length 0"
+	{"[2]int32", reflect.TypeOf([2]int32{}), []interface{}{[2]int32{}, [2]int32{1, 0}, [2]int32{0, 2}}, []string{"[0 0]", "[1 0]", "[0 2]"}},
+	{"float64", reflect.TypeOf(float64(0)), []interface{}{float64(0), 1.5, 2.5}, []string{"0", "1.5", "2.5"}},
+	{"bool", reflect.TypeOf(false), []interface{}{false, true, true}, []string{"false", "true", "true"}},
+	{"uint8", reflect.TypeOf(uint8(0)), []interface{}{uint8(0), uint8(1), uint8(255)}, []string{"0", "1", "255"}},
 }
 
 // canonical form of an error for unordered comparison: group clauses as sorted member lists + text.
@@ -120,6 +125,8 @@ func structCases(c *runner.Ctx, k int, kd kindT) {
 			{Name: "P1", Type: kd.t, Tag: `valid:"either=1,botheq=1"`},
 			{Name: "Child", Type: reflect.PtrTo(st), Tag: `valid:"exist"`},
 			{Name: "Kids", Type: reflect.SliceOf(st), Tag: `valid:"exist"`},
+			{Name: "ByKey", Type: reflect.MapOf(reflect.TypeOf(""), st), Tag: `valid:"exist"`},
+			{Name: "Pair", Type: reflect.ArrayOf(2, st), Tag: `valid:"exist"`},
 		})
 		for va := 0; va < nv; va++ {
 			if !c.Take() {
@@ -157,6 +164,16 @@ func structCases(c *runner.Ctx, k int, kd kindT) {
 			mp.SetMapIndex(reflect.ValueOf("a"), obj.Addr())
 			mp.SetMapIndex(reflect.ValueOf("b"), other.Addr())
 			run1("map-entries", mp.Interface(), diff)
+			// map entries held by value (the walker must judge each entry's own copy)
+			vmp := reflect.MakeMap(reflect.MapOf(reflect.TypeOf(""), st))
+			vmp.SetMapIndex(reflect.ValueOf("a"), obj)
+			vmp.SetMapIndex(reflect.ValueOf("b"), other)
+			run1("map-of-values", vmp.Interface(), diff)
+			vmp3 := reflect.MakeMap(reflect.MapOf(reflect.TypeOf(0), st))
+			vmp3.SetMapIndex(reflect.ValueOf(1), other)
+			vmp3.SetMapIndex(reflect.ValueOf(2), obj)
+			vmp3.SetMapIndex(reflect.ValueOf(3), mk((va*5+2)%nv))
+			run1("map-of-values-3", vmp3.Interface(), true)
 			for pv := 0; pv < 3; pv++ {
 				p := reflect.New(parent).Elem()
 				p.Field(0).Set(reflect.ValueOf(kd.vals[pv]))
@@ -166,6 +183,12 @@ func structCases(c *runner.Ctx, k int, kd kindT) {
 				ks.Index(0).Set(other)
 				ks.Index(1).Set(obj)
 				p.Field(3).Set(ks)
+				bk := reflect.MakeMap(reflect.MapOf(reflect.TypeOf(""), st))
+				bk.SetMapIndex(reflect.ValueOf("k1"), obj)
+				bk.SetMapIndex(reflect.ValueOf("k2"), other)
+				p.Field(4).Set(bk)
+				p.Field(5).Index(0).Set(obj)
+				p.Field(5).Index(1).Set(other)
 				run1("nested+parent", p.Addr().Interface(), true)
 			}
 			c.Sample(func() interface{} { return desc })
@@ -357,14 +380,20 @@ func run(c *runner.Ctx) {
 	if c.Thorough() {
 		maxK = 4
 	}
-	for _, kd := range kindsT {
+	for ki, kd := range kindsT {
 		for k := 2; k <= maxK; k++ {
+			if ki >= 2 && k > 3 {
+				continue
+			}
 			c.Space(fmt.Sprintf("struct/%s/%d-fields", kd.name, k))
 			structCases(c, k, kd)
 		}
 	}
-	for _, kd := range kindsT {
+	for ki, kd := range kindsT {
 		for k := 2; k <= maxK; k++ {
+			if ki >= 2 && k > 3 {
+				continue
+			}
 			c.Space(fmt.Sprintf("map-url/%s/%d-keys", kd.name, k))
 			mapUrlCases(c, k, kd)
 		}
@@ -375,8 +404,8 @@ func main() {
 	runner.Main(runner.Config{
 		Property:  "C17",
 		Technique: "bounded-exhaustive enumeration of group assignments x value assignments x object placements x entry points vs per-object group model",
-		Rule: "objects with 2..3 (thorough 4) fields/keys, each in {none, either=1, either=2, botheq=1, botheq=2}, kinds string/int32, values {zero,x,y}: all assignments; placements: single struct, two slice elements, slice of pointers, " +
-			"two map entries, nested child + slice of kids under a parent using the same group ids; Map, []map (two objects), Url (both parameter orders); expected group clauses (one per violated group, listing all members, " +
+		Rule: "objects with 2..3 (thorough 4) fields/keys, each in {none, either=1, either=2, botheq=1, botheq=2}, kinds string/int32 (and, up to 3 members, [2]int32, float64, bool, uint8), values {zero,x,y}: all assignments; placements: single struct, two slice elements, slice of pointers, " +
+			"two map entries by pointer, two and three map entries by value, nested child + slice of kids + map of kids by value + array of kids under a parent using the same group ids; Map, []map (two objects), Url (both parameter orders); expected group clauses (one per violated group, listing all members, " +
 			"single-member groups as rule-writing errors) compared as multisets with members as sets; non-trivial = >=2 groups or objects whose verdicts differ",
 		Assumptions: []string{"every group member is present in Map/Url inputs (possibly empty)", "group clause order and Map member order unspecified (Go maps)"},
 		Run:         run,
